@@ -122,6 +122,21 @@ let handle (f : Stdlib.String.t array) : Stdlib.String.t =
     else (match cf_read None None (dec_lines f.(3)) with
         | Ok c -> "ok\t" ^ Stdlib.String.concat "," (List.map (fun fl -> enc_val (cf_get_version fl c)) fls)
         | Err k -> "err\t" ^ err_name k)
+  | "cfremove" ->
+    (* Database.unassignTag(tag, name, [flavor]): ChainFile(file) ; removeVersion(flavor) ; write if changed *)
+    (match cf_read None None (dec_lines f.(1)) with
+     | Ok c ->
+       if cf_get_version (dec_str f.(2)) c = None && not (List.exists (fun (k, _) -> k = dec_str f.(2)) c.cf_info)
+       then "ok\t" ^ enc_lines (dec_lines f.(1))
+       else show_lines (cf_lines (cf_remove_version (dec_str f.(2)) c))
+     | Err k -> "err\t" ^ err_name k)
+  | "vfremove" ->
+    (* Database.undeclare: VersionFile(file) ; removeFlavor(flavor) ; write() if changed *)
+    (match vf_read None None (dec_lines f.(1)) with
+     | Ok r ->
+       if not (List.exists (fun (k, _) -> k = dec_str f.(2)) r.vf_info) then "ok\t" ^ enc_lines (dec_lines f.(1))
+       else show_lines (vf_write_gen true (fun _ -> false) None (vf_remove_flavor (dec_str f.(2)) r))
+     | Err k -> "err\t" ^ err_name k)
   | "vfclass" -> show_class (vf_classify (dec_str f.(1)))
   | "cfclass" -> show_class (cf_classify (dec_str f.(1)))
   | _ -> failwith "unknown op"
